@@ -60,9 +60,9 @@ CLAIMS.update({
 
 CLAIMS.update({
  "C03": dict(
-    text="Coq theorems for all inputs: a send creates exactly one delivery per accepting connection with the mapped value (c03_deliveries_of_send); a delivery appends exactly that message to exactly the target mailbox, only when there is room (c03_delivery_enqueues_once); the owner consumes exactly the head of its mailbox (c03_start_consumes_once); the sender does not move on before all deliveries are made (c03_send_completes_before_next_op); in-flight counter = number of queued messages in every reachable state and Ok iff all mailboxes are empty (c03_conservation, c03_ok_means_all_consumed). Tie: bursts of 1..3x capacity into mailboxes of capacity 1..16 through plain/map/filter_map connections, sources, queries; multiset comparison with Sim.v on 1..16 threads + closure oracle (processed = sent per accepting connection) on the implementation.",
+    text="Coq theorems for all inputs: a send creates exactly one delivery per accepting connection with the mapped value (c03_deliveries_of_send); a delivery appends exactly that message to exactly the target mailbox, only when there is room (c03_delivery_enqueues_once); the owner consumes exactly the head of its mailbox (c03_start_consumes_once); the sender does not move on before all deliveries are made (c03_send_completes_before_next_op); in-flight counter = number of queued messages in every reachable state and Ok iff all mailboxes are empty (c03_conservation, c03_ok_means_all_consumed). Tie: bursts of 1..3x capacity into mailboxes of capacity 1..16 through plain/map/filter_map connections, sources, queries; multiset comparison with Sim.v on 1..16 threads + closure oracle (processed = sent per accepting connection) on the implementation. Channel protocol (Chan.v, programs generated from channel.rs by translator T4, obligation c03_chan_source_is_proved_program): for every number of senders, capacity and interleaving a parked sender that nobody is going to wake faces a full mailbox and the parked receiver an empty one (c03_chan_sender_sleeps_only_when_full, c03_chan_receiver_sleeps_only_when_empty, c03_chan_invariant, c03_chan_bounded): no wake-up is lost, which is what Sim.v's 'a send proceeds iff there is room' abstracts.",
     note=SIMNOTE + "Trace level: c03_mailbox_trace (nothing lost, duplicated, reordered or invented in any execution) and c03_ok_means_all_consumed; the multiset 'sent = processed per recipient' is derived from them in prose, and decided on the implementation by the oracle.",
-    technique="Coq proof (per-step lemmas + counting invariant) + differential bench correspondence + closure oracle",
+    technique="Coq proof (per-step lemmas + counting invariant; inductive invariant of the channel's parking protocol on programs translated from the source) + differential bench correspondence + closure oracle",
     ref="DESIGN.md §5 C03"),
  "C04": dict(
     text="Coq theorems: Ok iff every mailbox is empty (all sent messages consumed); in a quiescent failure-free state with empty mailboxes no task is in the middle of a send (c04_no_half_done_send, all benches with capacities >= 1); a run changes neither time nor termination nor clock position (c04_run_frame); computed schedule-independence instances. Tie: every bench on the single-threaded executor and on 2,3,4,8,16 workers must equal the model's per-command multiset of handler invocations, results, times, sink contents; oracle 'Ok => everything sent was processed'; wide benches (129..300 models, more than one injector bucket); runs with seeded delays at 15 protocol points of the multi-threaded executor (guarded hooks nexosim::verif). Pool protocol (Pool.v): for the barrier program generated from the current mt_executor.rs (translator T3, obligation c04_pool_source_is_proved_program + call-order obligation), every pool size, every interleaving at one-shared-access granularity and every task behaviour, Executor::run reads the idle pool only when no task is left in the injector, a local queue, a fast slot or a worker's hands and no task is running (c04_pool_run_returns_only_at_quiescence, c04_pool_every_task_was_run = every task spawned or woken has been run, tasks being conserved by every step for any barrier (c04_pool_tasks_conserved), c04_pool_idle_means_quiescent, c04_pool_work_only_on_active_workers, c04_pool_no_assert_failure), and whenever run() is blocked in park() without a pending unpark some worker can perform its next step (c04_pool_run_never_blocked_with_all_workers_blocked: deadlock-freedom of the parking protocol).",
